@@ -75,7 +75,7 @@ func NewToUnicodeFile(csr charcode.CodeSpaceRange, data map[charcode.Code]string
 
 					needsList := false
 					for j := start; j < i-1; j++ {
-						if data[info[j+1].code] != nextString(data[info[j].code], 1) {
+						if data[info[j+1].code] != nextString(data[info[start].code], j+1-start) {
 							needsList = true
 							break
 						}
